@@ -137,36 +137,42 @@ theorem newline_fail_at {c : Char} {rest : Str} (h : c ≠ '\n' ∧ c ≠ '\r') 
 theorem newline_fail_nil (p : Nat) (o : List Pair) : Ev false .newline (mk [] p o) .fail :=
   Ev.newline_fail (by intro ch r' e; cases e)
 
-/-- One canonical line per setting. -/
-def linesText : List Setting → Str
+/-- A statement: its text, the pair the grammar makes of it, the AST statement `toAst` makes of that. -/
+structure Item where
+  text : Str
+  pair : Pair
+  stmt : Stmt
+
+/-- `statement` parses the text of the item to its pair (whatever follows the line break), the text
+starts with an identifier character, and `stmt?` turns the pair into the item's statement. -/
+structure Item.Good (it : Item) : Prop where
+  head : ∃ c r, it.text = c :: r ∧ IsIdChar c
+  parses : ∀ (rest : Str) (p : Nat) (o : List Pair),
+    Ev false statementE (Peg.mk (it.text ++ '\n' :: rest) p o) (.ok (Peg.mk ('\n' :: rest) (p + it.text.length) (it.pair :: o)))
+  ast : stmt? it.pair = some (some it.stmt)
+
+/-- One line (or block) per statement, each followed by a line break. -/
+def linesText : List Item → Str
   | [] => []
-  | s :: ss => settingText s ++ '\n' :: linesText ss
+  | s :: ss => s.text ++ '\n' :: linesText ss
 
-def fileText (ss : List Setting) : Str := hdr ++ linesText ss
-
-def LineCanon (s : Setting) : Prop := SettingCanon s ∧ KeyFree s.key
-
-theorem settingText_head {s : Setting} (hs : SettingCanon s) (tail : Str) :
-    ∃ c r, settingText s ++ tail = c :: r ∧ IsIdChar c := by
-  obtain ⟨⟨c, w, hkey, hw⟩, _⟩ := hs
-  exact ⟨c, w ++ (idxText s.index ++ '=' :: valueText s.value) ++ tail, by simp [settingText, hkey],
-    hw c (List.mem_cons_self ..)⟩
+def fileText (ss : List Item) : Str := hdr ++ linesText ss
 
 theorem valStop_lf : ValStop '\n' := by unfold ValStop NumStop NoSkipChar IsDigit; decide
 
 def iterE : Expr := .seq (.plus .newline) (.call .statement)
 
-theorem iter_ok (s : Setting) (hs : LineCanon s) (rest : Str) (p : Nat) (o : List Pair) :
-    Ev false iterE (mk ('\n' :: (settingText s ++ '\n' :: rest)) p o)
-      (.ok (mk ('\n' :: rest) (p + 1 + (settingText s).length) (settingPair s :: o))) := by
-  obtain ⟨c, r, hcr, hc⟩ := settingText_head hs.1 ('\n' :: rest)
+theorem iter_ok (s : Item) (hs : s.Good) (rest : Str) (p : Nat) (o : List Pair) :
+    Ev false iterE (mk ('\n' :: (s.text ++ '\n' :: rest)) p o)
+      (.ok (mk ('\n' :: rest) (p + 1 + s.text.length) (s.pair :: o))) := by
+  obtain ⟨c, r, hcr, hc⟩ := hs.head
   obtain ⟨hsk, hnl⟩ := idChar_props hc
-  have hskip : Sk false (mk (settingText s ++ '\n' :: rest) (p + 1) o) (.ok (mk (settingText s ++ '\n' :: rest) (p + 1) o)) :=
+  have hskip : Sk false (mk (s.text ++ '\n' :: rest) (p + 1) o) (.ok (mk (s.text ++ '\n' :: rest) (p + 1) o)) :=
     sk_none (by rw [hcr]; exact hsk)
-  have hplus : Ev false (.plus .newline) (mk ('\n' :: (settingText s ++ '\n' :: rest)) p o)
-      (.ok (mk (settingText s ++ '\n' :: rest) (p + 1) o)) :=
+  have hplus : Ev false (.plus .newline) (mk ('\n' :: (s.text ++ '\n' :: rest)) p o)
+      (.ok (mk (s.text ++ '\n' :: rest) (p + 1) o)) :=
     Ev.plus_one (Ev.newline_lf rfl) hskip (by rw [hcr]; exact newline_fail_at hnl (p + 1) o)
-  exact Ev.seq hplus hskip (statement_setting_ok s hs.1 hs.2 ('\n' :: rest) valStop_lf (p + 1) o)
+  exact Ev.seq hplus hskip (hs.parses rest (p + 1) o)
 
 theorem iter_end (p : Nat) (o : List Pair) : Ev false iterE (mk ['\n'] p o) .fail := by
   have hplus : Ev false (.plus .newline) (mk ['\n'] p o) (.ok (mk [] (p + 1) o)) :=
@@ -175,95 +181,107 @@ theorem iter_end (p : Nat) (o : List Pair) : Ev false iterE (mk ['\n'] p o) .fai
 
 theorem noSkip_lf : NoSkipChar '\n' := by unfold NoSkipChar; decide
 
-theorem lp_lines : ∀ (ss : List Setting) (p : Nat) (o : List Pair), (∀ s ∈ ss, LineCanon s) →
+theorem lp_lines : ∀ (ss : List Item) (p : Nat) (o : List Pair), (∀ s ∈ ss, s.Good) →
     Lp false iterE (mk ('\n' :: linesText ss) p o)
-      (.ok (mk ['\n'] (p + (linesText ss).length) ((ss.map settingPair).reverse ++ o)))
+      (.ok (mk ['\n'] (p + (linesText ss).length) ((ss.map Item.pair).reverse ++ o)))
   | [], p, o, _ => Lp.stop (sk_none (show Head NoSkipChar ('\n' :: _) from noSkip_lf)) (iter_end p o)
   | s :: ss, p, o, h => by
-    have ih := lp_lines ss (p + 1 + (settingText s).length) (settingPair s :: o)
+    have ih := lp_lines ss (p + 1 + s.text.length) (s.pair :: o)
       (fun x hx => h x (List.mem_cons_of_mem _ hx))
-    rw [mk_pos (show p + 1 + (settingText s).length + (linesText ss).length = p + (linesText (s :: ss)).length by
+    rw [mk_pos (show p + 1 + s.text.length + (linesText ss).length = p + (linesText (s :: ss)).length by
       simp only [linesText, List.length_append, List.length_cons]; omega)] at ih
-    have eo : (ss.map settingPair).reverse ++ settingPair s :: o = ((s :: ss).map settingPair).reverse ++ o := by simp
+    have eo : (ss.map Item.pair).reverse ++ s.pair :: o = ((s :: ss).map Item.pair).reverse ++ o := by simp
     rw [eo] at ih
     exact Lp.step (sk_none (show Head NoSkipChar ('\n' :: _) from noSkip_lf))
       (iter_ok s (h s (List.mem_cons_self ..)) (linesText ss) p o) ih
 
-theorem star_lines (ss : List Setting) (p : Nat) (o : List Pair) (h : ∀ s ∈ ss, LineCanon s) :
+theorem star_lines (ss : List Item) (p : Nat) (o : List Pair) (h : ∀ s ∈ ss, s.Good) :
     Ev false (.star iterE) (mk ('\n' :: linesText ss) p o)
-      (.ok (mk ['\n'] (p + (linesText ss).length) ((ss.map settingPair).reverse ++ o))) := by
+      (.ok (mk ['\n'] (p + (linesText ss).length) ((ss.map Item.pair).reverse ++ o))) := by
   cases ss with
   | nil => exact Ev.star_nil (iter_end p o)
   | cons s ss =>
-    have ih := lp_lines ss (p + 1 + (settingText s).length) (settingPair s :: o)
+    have ih := lp_lines ss (p + 1 + s.text.length) (s.pair :: o)
       (fun x hx => h x (List.mem_cons_of_mem _ hx))
-    rw [mk_pos (show p + 1 + (settingText s).length + (linesText ss).length = p + (linesText (s :: ss)).length by
+    rw [mk_pos (show p + 1 + s.text.length + (linesText ss).length = p + (linesText (s :: ss)).length by
       simp only [linesText, List.length_append, List.length_cons]; omega)] at ih
-    have eo : (ss.map settingPair).reverse ++ settingPair s :: o = ((s :: ss).map settingPair).reverse ++ o := by simp
+    have eo : (ss.map Item.pair).reverse ++ s.pair :: o = ((s :: ss).map Item.pair).reverse ++ o := by simp
     rw [eo] at ih
     exact Ev.star_cons (iter_ok s (h s (List.mem_cons_self ..)) (linesText ss) p o) ih
 
-/-- The pair tree of a canonical settings file. -/
-def filePair (ss : List Setting) : Pair :=
-  .node .gsd (fileText ss) (anyP :: startP :: (ss.map settingPair ++ [eoiP]))
+/-- The pair tree of a canonical file. -/
+def filePair (ss : List Item) : Pair :=
+  .node .gsd (fileText ss) (anyP :: startP :: (ss.map Item.pair ++ [eoiP]))
 
-theorem gsd_ok (s : Setting) (ss : List Setting) (h : ∀ x ∈ s :: ss, LineCanon x) :
+theorem gsd_ok (s : Item) (ss : List Item) (h : ∀ x ∈ s :: ss, x.Good) :
     Ev false (.call .gsd) (mk (fileText (s :: ss)) 0 [])
       (.ok (mk [] (0 + (fileText (s :: ss)).length) [filePair (s :: ss)])) := by
   have hs := h s (List.mem_cons_self ..)
-  have hss : ∀ x ∈ ss, LineCanon x := fun x hx => h x (List.mem_cons_of_mem _ hx)
-  -- abbreviations
-  have hT : fileText (s :: ss) = hdr ++ (settingText s ++ '\n' :: linesText ss) := rfl
-  obtain ⟨c, r, hcr, hc⟩ := settingText_head hs.1 ('\n' :: linesText ss)
+  have hss : ∀ x ∈ ss, x.Good := fun x hx => h x (List.mem_cons_of_mem _ hx)
+  have hT : fileText (s :: ss) = hdr ++ (s.text ++ '\n' :: linesText ss) := rfl
+  obtain ⟨c, r, hcr0, hc⟩ := hs.head
+  have hcr : s.text ++ '\n' :: linesText ss = c :: (r ++ '\n' :: linesText ss) := by rw [hcr0]; rfl
   obtain ⟨hsk, hnl⟩ := idChar_props hc
-  have skHash : ∀ q o, Sk false (mk (hdr ++ (settingText s ++ '\n' :: linesText ss)) q o) (.ok (mk (hdr ++ (settingText s ++ '\n' :: linesText ss)) q o)) :=
+  have skHash : ∀ q o, Sk false (mk (hdr ++ (s.text ++ '\n' :: linesText ss)) q o) (.ok (mk (hdr ++ (s.text ++ '\n' :: linesText ss)) q o)) :=
     fun q o => sk_none (show NoSkipChar '#' by unfold NoSkipChar; decide)
-  have skL : ∀ q o, Sk false (mk (settingText s ++ '\n' :: linesText ss) q o) (.ok (mk (settingText s ++ '\n' :: linesText ss) q o)) := fun q o => sk_none (by show Head NoSkipChar (settingText s ++ '\n' :: linesText ss); rw [hcr]; exact hsk)
+  have skL : ∀ q o, Sk false (mk (s.text ++ '\n' :: linesText ss) q o) (.ok (mk (s.text ++ '\n' :: linesText ss) q o)) :=
+    fun q o => sk_none (by show Head NoSkipChar (s.text ++ '\n' :: linesText ss); rw [hcr]; exact hsk)
   have skLf : ∀ (t : Str) q o, Sk false (mk ('\n' :: t) q o) (.ok (mk ('\n' :: t) q o)) :=
     fun t q o => sk_none (show Head NoSkipChar ('\n' :: t) from noSkip_lf)
-  have body : Ev false (ruleDef .gsd).2 (mk (hdr ++ (settingText s ++ '\n' :: linesText ss)) 0 [])
-      (.ok (mk [] (13 + (settingText s).length + (linesText ss).length + 1)
-        (eoiP :: ((ss.map settingPair).reverse ++ [settingPair s, startP, anyP])))) := by
+  have body : Ev false (ruleDef .gsd).2 (mk (hdr ++ (s.text ++ '\n' :: linesText ss)) 0 [])
+      (.ok (mk [] (13 + s.text.length + (linesText ss).length + 1)
+        (eoiP :: ((ss.map Item.pair).reverse ++ [s.pair, startP, anyP])))) := by
     show Ev false (.seq .soi (.seq (.call .any_text) (.seq (.call .start) (.seq (.star .newline)
       (.seq (.call .statement) (.seq (.star iterE) (.seq (.star .newline) (.call .EOI)))))))) _ _
     refine Ev.seq (Ev.soi_ok rfl) (skHash 0 []) ?_
-    refine Ev.seq (anyText_ok (settingText s ++ '\n' :: linesText ss) 0 []) (skHash 0 _) ?_
-    refine Ev.seq (start_ok (settingText s ++ '\n' :: linesText ss) 0 [anyP]) (skL _ _) ?_
-    refine Ev.seq (Ev.star_nil (by show Ev false .newline (mk (settingText s ++ '\n' :: linesText ss) _ _) .fail; rw [hcr]; exact newline_fail_at hnl _ _)) (skL _ _) ?_
-    refine Ev.seq (statement_setting_ok s hs.1 hs.2 ('\n' :: linesText ss) valStop_lf (0 + 13) [startP, anyP]) (skLf _ _ _) ?_
+    refine Ev.seq (anyText_ok (s.text ++ '\n' :: linesText ss) 0 []) (skHash 0 _) ?_
+    refine Ev.seq (start_ok (s.text ++ '\n' :: linesText ss) 0 [anyP]) (skL _ _) ?_
+    refine Ev.seq (Ev.star_nil (by show Ev false .newline (mk (s.text ++ '\n' :: linesText ss) _ _) .fail; rw [hcr]; exact newline_fail_at hnl _ _)) (skL _ _) ?_
+    refine Ev.seq (hs.parses (linesText ss) (0 + 13) [startP, anyP]) (skLf _ _ _) ?_
     refine Ev.seq (star_lines ss _ _ hss) (skLf _ _ _) ?_
     have hnl1 : ∀ q o, Ev false (.star .newline) (mk ['\n'] q o) (.ok (mk [] (q + 1) o)) :=
       fun q o => Ev.star_cons (Ev.newline_lf rfl) (Lp.stop (sk_none trivial) (newline_fail_nil (q + 1) o))
     refine Ev.seq (hnl1 _ _) (sk_none trivial) ?_
-    have := eoi_ok (0 + 13 + (settingText s).length + (linesText ss).length + 1)
-      ((ss.map settingPair).reverse ++ [settingPair s, startP, anyP])
+    have := eoi_ok (0 + 13 + s.text.length + (linesText ss).length + 1)
+      ((ss.map Item.pair).reverse ++ [s.pair, startP, anyP])
     simpa only [Nat.zero_add] using this
-  have := Ev.call_node (q := .gsd) (ty := .normal) (st := mk (hdr ++ (settingText s ++ '\n' :: linesText ss)) 0 []) rfl (by decide) body
-  have hlen : 13 + (settingText s).length + (linesText ss).length + 1 = 0 + (fileText (s :: ss)).length := by
+  have := Ev.call_node (q := .gsd) (ty := .normal) (st := mk (hdr ++ (s.text ++ '\n' :: linesText ss)) 0 []) rfl (by decide) body
+  have hlen : 13 + s.text.length + (linesText ss).length + 1 = 0 + (fileText (s :: ss)).length := by
     simp only [fileText, linesText, hdr, List.length_append, List.length_cons, List.length_nil]; omega
-  have htake : List.take (13 + (settingText s).length + (linesText ss).length + 1 - 0) (hdr ++ (settingText s ++ '\n' :: linesText ss)) = fileText (s :: ss) := by
-    rw [hlen, hT, Nat.zero_add, Nat.sub_zero, List.take_length]
   rw [hT] at hlen ⊢
-  rw [hT] at htake
   simpa only [mk, hlen, filePair, hT, Nat.zero_add, Nat.sub_zero, List.take_length, List.reverse_cons, List.reverse_append, List.reverse_reverse, List.reverse_nil,
     List.nil_append, List.cons_append, List.append_assoc, List.map_cons, List.singleton_append] using this
 
 /-! ### Back to the AST -/
 
-theorem stmts_settings : ∀ (ss : List Setting), (∀ s ∈ ss, SettingCanon s) →
-    stmts? (ss.map settingPair ++ [eoiP]) = some (ss.map Stmt.setting)
+theorem stmts_items : ∀ (ss : List Item), (∀ s ∈ ss, s.Good) →
+    stmts? (ss.map Item.pair ++ [eoiP]) = some (ss.map Item.stmt)
   | [], _ => rfl
   | s :: ss, h => by
-    have h1 := setting_settingPair (h s (List.mem_cons_self ..))
-    have h2 := stmts_settings ss (fun x hx => h x (List.mem_cons_of_mem _ hx))
-    have hst : stmt? (settingPair s) = some (some (.setting s)) := by
-      simp [stmt?, settingPair, Pair.rule] at h1 ⊢
-      simpa [settingPair] using h1
-    simp [stmts?, hst, h2]
+    have h1 := (h s (List.mem_cons_self ..)).ast
+    have h2 := stmts_items ss (fun x hx => h x (List.mem_cons_of_mem _ hx))
+    simp [stmts?, h1, h2]
 
-theorem toAst_filePair (ss : List Setting) (h : ∀ s ∈ ss, SettingCanon s) :
-    toAst (filePair ss) = some (ss.map Stmt.setting) := by
-  have := stmts_settings ss h
+theorem toAst_filePair (ss : List Item) (h : ∀ s ∈ ss, s.Good) :
+    toAst (filePair ss) = some (ss.map Item.stmt) := by
+  have := stmts_items ss h
   simp [toAst, filePair, Pair.rule, Pair.children, stmts?, stmt?, anyP, startP, this]
+
+/-! ### Settings as items -/
+
+def LineCanon (s : Setting) : Prop := SettingCanon s ∧ KeyFree s.key
+
+def settingItem (s : Setting) : Item := ⟨settingText s, settingPair s, .setting s⟩
+
+theorem settingItem_good {s : Setting} (hs : LineCanon s) : (settingItem s).Good where
+  head := by
+    obtain ⟨⟨c, w, hkey, hw⟩, _⟩ := hs.1
+    exact ⟨c, w ++ (idxText s.index ++ '=' :: valueText s.value), by simp [settingItem, settingText, hkey],
+      hw c (List.mem_cons_self ..)⟩
+  parses := fun rest p o => statement_setting_ok s hs.1 hs.2 ('\n' :: rest) valStop_lf p o
+  ast := by
+    have h1 := setting_settingPair hs.1
+    simp [settingItem, stmt?, settingPair, Pair.rule] at h1 ⊢
+    simpa [settingPair] using h1
 
 end PV.Gsd.Peg
